@@ -324,7 +324,7 @@ func (l *ArrayListOfValue) SetAt(index int, val Value) {
 }
 
 func (l *ArrayListOfValue) SetAtVal(index int, val Value) Value {
-	l.SetAtVal(index, val)
+	l.SetAt(index, val)
 	return Undefined
 }
 
@@ -362,7 +362,7 @@ func (l *ArrayListOfValue) Concat(other Value) (*ArrayListOfValue, Value) {
 			newList = append(newList, *o...)
 			return &newList, Undefined
 		case ArrayTuple:
-			newList := make(ArrayListOfValue, len(*l), len(*l)+o.Length())
+			newList := make(ArrayListOfValue, len(*l)+o.Length())
 			copy(newList, *l)
 
 			for i, element := range o.Elements() {
@@ -413,6 +413,10 @@ func (l *ArrayListOfValue) Repeat(other Value) (*ArrayListOfValue, Value) {
 				"list repeat count is too large %s",
 				o.Inspect(),
 			))
+		}
+		if newLen == 0 {
+			// nothing to copy, do not spin `o` times
+			return &ArrayListOfValue{}, Undefined
 		}
 		newList := make(ArrayListOfValue, 0, newLen)
 		for range int(o) {
@@ -575,7 +579,7 @@ func (l *ArrayListOfValueIterator) NextValue() (Value, Value) {
 
 func (l *ArrayListOfValueIterator) Elements() iter.Seq[Value] {
 	return func(yield func(Value) bool) {
-		for ; l.Index >= l.ArrayList.Length(); l.Index++ {
+		for ; l.Index < l.ArrayList.Length(); l.Index++ {
 			if !yield((*l.ArrayList)[l.Index]) {
 				return
 			}
